@@ -8,6 +8,7 @@ from .. import paths, waiters
 from ..core import FUNC, call_attr, calls_in, const, dotted, kwarg, is_const, norm, text, walk_local
 
 EXPLANATION = [
+    'C09.reject-ends-open: ChannelManager.on_l2cap_command_reject removes the rejected request from le_coc_requests (keyed by connection and identifier) and tells the channel, whose handler fails the pending connection_result: a rejected open ends.',
     'C09.mismatch-closes-both: the mode-mismatch branch of ClassicChannel.on_configure_request both fails a pending connect() and sends the Disconnection Request on every path.',
     "C09.response-closes: in both channel classes on_disconnection_response returns early only on the state test and the CID tests: no other condition (such as the manager's link-wide identifier counter) can make a matching response leave the channel DISCONNECTING.",
     'C09.settle-guard: every set_result / set_exception on a future kept in a channel attribute is under `not <future>.done()`, unless every coroutine waiting on that attribute clears it in a finally (a waiter that timed out leaves a cancelled future behind; settling it raises InvalidStateError in the middle of the link teardown).',
@@ -1078,7 +1079,31 @@ def mismatch_closes_both(ctx):
         R.check(bool(ends) and not bad, rule, f'{CL}.on_configure_request | mismatch', 'every path fails the pending connect and sends the Disconnection Request', 'a path through the mode-mismatch branch does only one of "fail the local connect()" and "disconnect the channel": the peer\'s channel stays in WAIT_CONFIG_* with its CID taken (or the local caller is never told)', p.loc(br), bad[:2])
 
 
+def reject_ends_open(ctx):
+    """A Command Reject is the only answer a peer without LE credit-based channels gives to a connection request: the manager
+    looks the request up by (connection, identifier) in its pending-request table, removes it, and fails the channel's
+    pending connect() -- the open ends and the creating coroutine releases the CID."""
+    R, p = ctx.r, ctx.p
+    rule = 'C09.reject-ends-open'
+    fn = p.find(f'{CM}.on_l2cap_command_reject')
+    if fn is None:
+        R.bad(rule, f'{CM}.on_l2cap_command_reject', 'anchor missing')
+        return
+    pops = [c for c in calls_in(fn) if dotted(c.func) == 'self.le_coc_requests.pop' and c.args and 'identifier' in norm(c.args[0])]
+    tells = [c for c in calls_in(fn) if isinstance(c.func, ast.Attribute) and dotted(c.func.value) == 'channel']
+    R.check(bool(pops) and bool(tells), rule, f'{CM}.on_l2cap_command_reject | pending request', 'the rejected request is removed from le_coc_requests and its channel is told',
+            'a Command Reject is only logged: an LE credit-based connection request that the peer rejects (no support for it) leaves connect() waiting until the link drops, with its CID and its request entry taken', p.loc(fn))
+    for c in tells:
+        m = p.find(f'{LE}.{c.func.attr}')
+        if m is None:
+            R.bad(rule, f'{LE}.{c.func.attr}', 'anchor missing')
+            continue
+        settles = [x for x in calls_in(m) if dotted(x.func) in ('self.connection_result.set_exception', 'self.connection_result.cancel')]
+        R.check(bool(settles), rule, f'{LE}.{c.func.attr} | fails the pending connect', 'connection_result is failed', f'{c.func.attr} does not fail the pending connection_result', p.loc(m))
+
+
 RULES = [
+    ('C09.reject-ends-open', reject_ends_open),
     ('C09.mismatch-closes-both', mismatch_closes_both),
     ('C09.response-closes', response_closes),
     ('C09.settle-guard', settle_guard_rule),
